@@ -182,6 +182,20 @@ Definition cli_run (c : cmd) (today : Z) (t : tree) : tree * bool :=
 Definition cli_run_all (cs : list (cmd * Z)) (t : tree) : tree :=
   fold_left (fun t cz => fst (cli_run (fst cz) (snd cz) t)) cs t.
 
+(* ------------------------------------------------------ instants and zones *)
+
+(* A command runs at an instant `now` (Unix seconds) in a process whose local
+   time zone is `off` seconds east of UTC.  SetMode passes time.Now(), which
+   carries that zone; SetModeAsOf formats asofTime.UTC(): the recorded date is
+   the UTC date of the instant, whatever the zone (Dir.Mode parses it as UTC). *)
+Definition utc_day (now : Z) : Z := (now / 86400)%Z.
+Definition local_day (now off : Z) : Z := ((now + off) / 86400)%Z.
+
+Definition cli_set_mode_at (m : bytes) (now off : Z) (t : tree) : tree * bool :=
+  cli_set_mode m (utc_day now) t.
+Definition cli_run_at (c : cmd) (now off : Z) (t : tree) : tree * bool :=
+  cli_run c (utc_day now) t.
+
 (* runEnv: fmt.Printf("mode: %s %s\n", m, t) with t a time.Time (UTC midnight
    or the zero time), then the three paths *)
 Definition zero_date : bytes := lit_zero_date.
@@ -194,6 +208,27 @@ Definition cli_env_output (dir : bytes) (t : tree) : bytes :=
   ++ lit_modefile ++ dir ++ lit_slash_mode ++ [10]
   ++ lit_localdir ++ dir ++ lit_slash_local ++ [10]
   ++ lit_uploaddir ++ dir ++ lit_slash_upload ++ [10].
+
+(* ------------------------------------------------------ no directory *)
+
+(* os.UserConfigDir() failed at init (HOME and XDG_CONFIG_HOME unset):
+   telemetry.Default is the zero Dir, all its paths are empty.  Mode() is "off";
+   SetModeAsOf refuses ("cannot determine telemetry mode file name"); runClean's
+   os.ReadDir("") fails with not-exist and is skipped.  No command touches any
+   file; the result is the exit status. *)
+Definition cli_run_nodir (c : cmd) : bool :=
+  match c with
+  | CMode Off => true        (* already "off": no-op *)
+  | CMode _ => false         (* failf: exit status 1 *)
+  | CClean | CEnv => true
+  end.
+
+Definition cli_env_output_nodir : bytes :=
+  lit_mode_colon ++ lit_off ++ [32] ++ zero_date ++ lit_utc_midnight ++ [10]
+  ++ [10]
+  ++ lit_modefile ++ [10]
+  ++ lit_localdir ++ [10]
+  ++ lit_uploaddir ++ [10].
 
 (* ------------------------------------------------- executable oracles *)
 
